@@ -4,11 +4,12 @@
   `tryOpUser` is `OperationTrait.try_operation` (rogw/tranp/semantics/reflection/traits.py:178-225) for a receiver whose class is
   declared in the program: `_find_method` through the inheritance chain (depth-first, like every member), the parameter check for the
   operators that select by argument type, and the `inherits` loop (traits.py:218-223) that accepts an operand of a class whose
-  DIRECT base is the parameter class. `tryStepAny` is one step of `each_binary_operator` (reflections.py:639-653: the receiver's
+  DIRECT base is the parameter class (`operandCandidates` follows the generated shape of that loop). `tryStepAny` is one step of `each_binary_operator` (reflections.py:639-653: the receiver's
   attempt, then the swapped one) for any mix of stub and user operands.
   `onSpread` is `ProceduralResolver.on_spread` (reflections.py:722-723).
 -/
 import Tranp.Model.InferSpec
+import Tranp.Generated.InferShape
 
 namespace Tranp.Infer
 open Tranp Tranp.Generated
@@ -34,6 +35,12 @@ def directBases (ct : ClassTable) (c : Str) : List Str :=
   | some d => d.bases
   | none => []
 
+/-- the classes `try_operation` compares with the parameter after the operand's own class (traits.py:218-223): as the source reads
+    today (`InferShape.operandBasesDirect`, generated on every run) — the DIRECT bases (`value.types.inherits`), or, with
+    proposed/C03-operator-operand-indirect-subclass.diff applied, all ancestors nearest first (`_ancestors`: the chain without its head) -/
+def operandCandidates (ct : ClassTable) (c : Str) : List Str :=
+  if InferShape.operandBasesDirect then directBases ct c else (chainOf ct c).drop 1
+
 /-- `parameter.attrs if parameter is a Union else [parameter]` (traits.py:210) -/
 def paramAlts : Ty → List Ty
   | .union ts => ts.toList
@@ -57,7 +64,7 @@ def tryOpUser (ct : ClassTable) (ps : OpParams) (lc : Str) (op : BOp) (r : Ty) :
           if (paramAlts p).contains r then some m.ty
           else
             match r with
-            | .cls rc .nil => if (directBases ct rc).any (fun b => (paramAlts p).contains (.cls b .nil)) then some m.ty else none
+            | .cls rc .nil => if (operandCandidates ct rc).any (fun b => (paramAlts p).contains (.cls b .nil)) then some m.ty else none
             | _ => none
 
 /-- `left.try_operation(op, right)` for any receiver: a user class goes through `tryOpUser`, everything else through the stub table -/
@@ -137,7 +144,7 @@ def directOk (ct : ClassTable) (ps : OpParams) (lc : Str) (op : BOp) (rc : Str) 
       m.callable &&
       match userOpParam ct ps lc d with
       | none => false
-      | some p => (paramAlts p).contains (.cls rc .nil) || (directBases ct rc).any (fun b => (paramAlts p).contains (.cls b .nil))
+      | some p => (paramAlts p).contains (.cls rc .nil) || (operandCandidates ct rc).any (fun b => (paramAlts p).contains (.cls b .nil))
 
 /-- every step of a chain over instances of user classes satisfies `directOk`, the left operand of a step being the class CPython's
     call of the previous step returns -/
